@@ -147,7 +147,7 @@ def chain_layers(L, cyclic):
 # Hamiltonian descriptions
 # ---------------------------------------------------------------------------
 
-H2_MODES = ["dict", "dict", "array", "default+over"]
+H2_MODES = ["dict", "dict", "array", "default+over", "shared"]
 H1_MODES = ["none", "array", "dict_all", "dict_some", "dict_default"]
 NMAX = 9
 
@@ -196,7 +196,7 @@ def ham1d_inputs(spec, allow_dup=True):
     bonds = [(i, (i + 1) % L) for i in range(nb)]
     mode = spec["h2"]
     over = [bool(spec["over"][i % NMAX]) for i in range(nb)]
-    if cyc and spec["bsym"] and mode in ("array", "default+over"):
+    if cyc and spec["bsym"] and mode in ("array", "default+over", "shared"):
         mode = "default+over"
         over[nb - 1] = True
     two = []
@@ -220,6 +220,20 @@ def ham1d_inputs(spec, allow_dup=True):
         D = _herm(rng, d * d, cplx, sc)
         two = [(b, D.copy()) for b in bonds]
         H2 = D
+    elif mode == "shared":
+        # the `{(i, i + 1): h for i in ...}` idiom: ONE array object under every key (keys in either orientation,
+        # optionally one pair named a second time in the other direction with its own array)
+        D = _herm(rng, d * d, cplx, sc)
+        H2 = {}
+        for i in range(nb):
+            b = bonds[i]
+            key = b if spec["orient"][i % NMAX] == 0 else (b[1], b[0])
+            H2[key] = D
+            two.append((key, D.copy()))
+            if allow_dup and spec["dup"] == i:
+                M2 = _herm(rng, d * d, cplx, sc)
+                H2[(key[1], key[0])] = M2
+                two.append(((key[1], key[0]), M2.copy()))
     elif mode == "dict":
         H2 = {}
         for i in range(nb):
@@ -302,6 +316,25 @@ def ham_classes(spec, ref):
     return c
 
 
+def hold_inputs(H2, H1):
+    """[(array as supplied, copy)] - to see afterwards whether quimb wrote into the caller's arrays"""
+    arrs = []
+    for H in (H2, H1):
+        if H is None:
+            continue
+        vals = list(H.values()) if isinstance(H, dict) else [H]
+        for v in vals:
+            if not any(v is a for a, _ in arrs):
+                arrs.append((v, v.copy()))
+    return arrs
+
+
+def check_inputs_untouched(held, info):
+    for a, c in held:
+        if not np.array_equal(a, c):
+            raise Violation("input-mutated", err=float(np.linalg.norm(a - c)), **info)
+
+
 def build_ham1d(spec, allow_dup=True):
     Q = qtn()
     H2, H1, ref = ham1d_inputs(spec, allow_dup=allow_dup)
@@ -352,7 +385,8 @@ def s_ham1d_terms(draw, tier):
     spec = draw(s_ham1d(cyclic=(False, False, True), bsym=(False, False, True)))
     return {"ham": spec, "xs": draw(st.lists(st.sampled_from(XS), min_size=1, max_size=3)),
             "which": draw(st.lists(st.integers(0, 11), min_size=1, max_size=4)),
-            "rev": draw(st.lists(st.booleans(), min_size=4, max_size=4)), "ask_rev": draw(st.sampled_from([False, False, True]))}
+            "rev": draw(st.lists(st.booleans(), min_size=4, max_size=4)), "ask_rev": draw(st.sampled_from([False, False, True])),
+            "hold": draw(st.sampled_from([False, False, True]))}
 
 
 def check_gates(ham, terms_ref, d, case, info, floor):
@@ -391,13 +425,21 @@ def check_gates(ham, terms_ref, d, case, info, floor):
 
 
 def run_ham1d_terms(case):
+    Q = qtn()
     spec = case["ham"]
-    ham, ref = build_ham1d(spec)
+    H2, H1, ref = ham1d_inputs(spec)
+    # a third of the cases keep the supplied arrays (the caller inspects them afterwards), the rest pass temporaries
+    held = hold_inputs(H2, H1) if case.get("hold") else []
+    ham = Q.LocalHam1D(spec["L"], H2=H2, H1=H1, cyclic=spec["cyclic"])
+    del H2, H1
     info = dict(cls="LocalHam1D", cyclic=spec["cyclic"])
+    check_inputs_untouched(held, info)
     e, Hd, mag = check_terms_sum(ham.terms, ref, info)
     terms = {k: np.array(v) for k, v in ham.terms.items()}
     e2, nrev = check_gates(ham, terms, spec["d"], case, info, floor=mag)
-    return {"nt": site_dependent(ref) and spec["L"] >= 3, "cls": ham_classes(spec, ref) + (["asked-reversed"] if nrev else []),
+    check_inputs_untouched(held, info)
+    return {"nt": site_dependent(ref) and spec["L"] >= 3,
+            "cls": ham_classes(spec, ref) + (["asked-reversed"] if nrev else []) + (["inputs-held"] if held else []),
             "err": max(e, e2)}
 
 
@@ -424,7 +466,8 @@ def s_hamgen(draw, tier):
     return {"n": n, "edges": edges, "nodes": draw(st.sampled_from(NODE_KINDS)), "seed": draw(A.seeds),
             "dtype": draw(st.sampled_from(["complex128", "complex128", "float64"])),
             "h1": draw(st.sampled_from(H1_MODES)), "h1sites": draw(st.lists(st.integers(0, 1), min_size=NMAX, max_size=NMAX)),
-            "dup": draw(st.sampled_from([-1, -1, 0, 1])),
+            "dup": draw(st.sampled_from([-1, -1, 0, 1])), "shared": draw(st.sampled_from([False, False, True])),
+            "hold": draw(st.sampled_from([False, False, True])),
             "xs": draw(st.lists(st.sampled_from(XS), min_size=1, max_size=2)),
             "which": draw(st.lists(st.integers(0, 11), min_size=1, max_size=4)),
             "rev": draw(st.lists(st.booleans(), min_size=4, max_size=4)), "ask_rev": draw(st.sampled_from([False, False, True])),
@@ -450,8 +493,9 @@ def hamgen_inputs(case, d=2):
     names = [node_name(case["nodes"], i) for i in range(n)]
     pos = {names[i]: i for i in range(n)}
     H2, two = {}, []
+    shared = _herm(rng, d * d, cplx, 1.0) if case.get("shared") else None  # one array object under every key
     for j, (a, b) in enumerate(case["edges"]):
-        M = _herm(rng, d * d, cplx, 1.0)
+        M = shared if shared is not None else _herm(rng, d * d, cplx, 1.0)
         H2[(names[a], names[b])] = M
         two.append(((a, b), M.copy()))
         if case["dup"] == j:
@@ -508,10 +552,12 @@ def run_hamgen(case):
     random.seed(case["seed"])  # get_auto_ordering('random') draws from the global `random` module
     d = 2
     H2, H1, ref = hamgen_inputs(case, d)
+    held = hold_inputs(H2, H1) if case.get("hold") else []
     ham = Q.LocalHamGen(H2=H2, H1=H1)
     del H2, H1
     names, pos = ref["names"], ref["pos"]
     info = dict(cls="LocalHamGen", nodes=case["nodes"])
+    check_inputs_untouched(held, info)
     e, Hd, mag = check_terms_sum(ham.terms, ref, info, names=names)
     if set(ham.sites) != set(names) or ham.nsites != len(names):
         raise Violation("sites", got=repr(ham.sites), **info)
@@ -565,7 +611,8 @@ def run_hamgen(case):
     return {"nt": len(terms) >= 3 and nl >= 2, "cls": ["n=%d" % case["n"], "nodes=" + case["nodes"], "h1=" + case["h1"],
                                                         "ordering=" + str(ordering), "order=%d" % order, "layers=%d" % nl,
                                                         "steps=%d" % steps, "fuse" if case["fuse"] else "nofuse"]
-            + (["asked-reversed"] if nrev else []) + (["dup-key"] if len(ref["two"]) > len(terms) else []),
+            + (["asked-reversed"] if nrev else []) + (["dup-key"] if len(ref["two"]) > len(terms) else [])
+            + (["shared-array"] if case.get("shared") else []) + (["inputs-held"] if held else []),
             "err": max(e, e2, e3)}
 
 
